@@ -1,15 +1,41 @@
 #!/venv/bin/python
-"""Regenerates seeded/INDEX.md from seeded/*/meta.json."""
+"""Regenerates seeded/INDEX.md from seeded/*/meta.json. Per (check, tier) the latest run decides; an earlier miss of
+the same check is kept as 'first missed, caught after strengthening'."""
 import glob, json, os
+
 V = os.path.dirname(os.path.dirname(os.path.abspath(__file__)))
 rows = []
+tally = {"caught_quick": 0, "caught_thorough_only": 0, "caught_by_other_property_only": 0, "missed": 0}
 for f in sorted(glob.glob(os.path.join(V, "seeded", "*", "meta.json"))):
     m = json.load(open(f))
-    caught = [f"{c['check']}({c['tier']}): {'CAUGHT' if c['exit'] == 1 else 'missed' if c['exit'] == 0 else 'error'}" for c in m.get("checks", [])]
-    rows.append((m["id"], m["breaks_property"], "yes" if m.get("confirmed") else "NO", "; ".join(caught), m["needs_to_manifest"]))
+    latest, first = {}, {}
+    for c in m.get("checks", []):
+        key = (c["check"], c["tier"].split()[0])
+        first.setdefault(key, c["exit"])
+        latest[key] = c["exit"]
+    parts = []
+    for (chk, tier), ex in latest.items():
+        word = "CAUGHT" if ex == 1 else "missed" if ex == 0 else "error"
+        if ex == 1 and first[(chk, tier)] == 0:
+            word += " (missed at first, caught after strengthening)"
+        if ex == 1 and first[(chk, tier)] == 2:
+            word += " (harness error at first, see DESIGN.md)"
+        parts.append(f"{chk}({tier}): {word}")
+    own = m["breaks_property"]
+    if latest.get((own, "quick")) == 1:
+        tally["caught_quick"] += 1
+    elif latest.get((own, "thorough")) == 1:
+        tally["caught_thorough_only"] += 1
+    elif any(ex == 1 for ex in latest.values()):
+        tally["caught_by_other_property_only"] += 1
+    else:
+        tally["missed"] += 1
+    rows.append((m["id"], own, "yes" if m.get("confirmed") else "NO", "; ".join(parts), m["needs_to_manifest"]))
 with open(os.path.join(V, "seeded", "INDEX.md"), "w") as out:
     out.write("# Seeded changes (each breaks one property; the repository's suite still passes)\n\n")
-    out.write("| id | property | independently confirmed | checks | needs to manifest |\n|---|---|---|---|---|\n")
+    out.write(f"{len(rows)} changes: {tally['caught_quick']} caught by the quick tier of the property's own check, {tally['caught_thorough_only']} by its thorough tier only, "
+              f"{tally['caught_by_other_property_only']} only by the check of another property, {tally['missed']} by none.\n\n")
+    out.write("| id | property | independently confirmed | checks (latest run per check and tier) | needs to manifest |\n|---|---|---|---|---|\n")
     for r in rows:
         out.write("| " + " | ".join(x.replace("|", "/") for x in r) + " |\n")
-print(len(rows), "seeds")
+print(len(rows), "seeds", tally)
